@@ -14,6 +14,9 @@ def run(ctx):
     fam = ctx.tlc_family("FamC17", constants={"Tier": '"%s"' % ctx.tier}, timeout=3000)
     ctx.exhaustive["FamC17"] = True
     failures = progflow.judge(ctx, fam, "fam")
+    # exists / read next to a later operand that changes the file (spec/FamC04.tla WorldOrder): the answer is the one at the point of evaluation
+    order = [c for c in ctx.tlc_family("FamC04", constants={"Tier": '"quick"'}) if "/world/" in c["id"] or "write/args" in c["id"]]
+    failures += progflow.judge(ctx, order, "order")
     failures += corpus.judge(ctx, "C17")
     # direction B: random histories (harness/genworld.go): writes/appends with run-time flags and paths, guarded reads, exists, input(), in loops, branches and functions
     gen = progflow.generate(ctx, "files", 120 if ctx.tier == "quick" else 3000)
